@@ -99,8 +99,14 @@ def parse_vwsc_data(fdata: bytes) -> List[Any]:
         
         if channelSize == 2:
             logging.debug('This frame is equals to the previous one!')
-            last_idx = len(vwsc_data) - 1
-            vwsc_data.append(vwsc_data[last_idx])
+            if len(vwsc_data) > 0:
+                last_idx = len(vwsc_data) - 1
+                vwsc_data.append(vwsc_data[last_idx])
+            else:
+                # Nothing before the first frame: it repeats the initial
+                # (all zero) channel state
+                vwsc_data.append(cparser.parse_vwsc_channels(channelDataList,
+                                                             column))
             continue
         
         channelSize -= 2
